@@ -174,11 +174,33 @@ func (x *Exec) mergeStates(anc *pcNode, states []*State) *State {
 			m.oldHeap[n] = c
 		}
 	}
-	for k := range m.ctxDone {
-		for _, s := range live {
-			if !s.ctxDone[k] {
-				delete(m.ctxDone, k)
+	// contexts known to be done: merged as Boolean terms
+	dkeys := map[string]bool{}
+	for _, s := range live {
+		for k := range s.ctxDone {
+			dkeys[k] = true
+		}
+	}
+	if len(dkeys) > 0 {
+		m.ctxDone = map[string]string{}
+		for _, k := range sortedStrings(dkeys) {
+			terms := make([]string, len(live))
+			same := true
+			for i, s := range live {
+				terms[i] = s.ctxDoneTerm(k)
+				if terms[i] != terms[0] {
+					same = false
+				}
 			}
+			if same {
+				m.ctxDone[k] = terms[0]
+				continue
+			}
+			c := x.eng.fresh("ctxdone", sBool)
+			for i := range live {
+				m.pc = m.pc.push(mkImp(conds[i], mkEq(c, terms[i])))
+			}
+			m.ctxDone[k] = c
 		}
 	}
 	// held locks: intersection
